@@ -117,6 +117,11 @@ def _efc_row(
   mid = solimp[3]
   power = solimp[4]
 
+  # standard and direct reference formats cannot be mixed: MuJoCo replaces a mixed-sign solref by the default
+  if (solref[0] > 0.0) != (solref[1] > 0.0):
+    timeconst = 0.02
+    dampratio = 1.0
+
   if not (opt_disableflags & DisableBit.REFSAFE):
     timeconst = wp.max(timeconst, 2.0 * timestep)
 
@@ -130,16 +135,19 @@ def _efc_row(
   dmax_sq = dmax * dmax
   k = 1.0 / (dmax_sq * timeconst * timeconst * dampratio * dampratio)
   b = 2.0 / (dmax * timeconst)
-  k = wp.where(solref[0] <= 0, -solref[0] / dmax_sq, k)
-  b = wp.where(solref[1] <= 0, -solref[1] / dmax, b)
+  if solref[0] <= 0.0 and solref[1] <= 0.0:
+    k = -solref[0] / dmax_sq
+    b = -solref[1] / dmax
 
   imp_x = wp.abs(pos_imp) / width
   imp_a = (1.0 / wp.pow(mid, power - 1.0)) * wp.pow(imp_x, power)
   imp_b = 1.0 - (1.0 / wp.pow(1.0 - mid, power - 1.0)) * wp.pow(1.0 - imp_x, power)
   imp_y = wp.where(imp_x < mid, imp_a, imp_b)
   imp = dmin + imp_y * (dmax - dmin)
-  imp = wp.clamp(imp, dmin, dmax)
   imp = wp.where(imp_x > 1.0, dmax, imp)
+  # flat impedance when the interval is empty or the width degenerate (as mj getimpedance)
+  if dmin == dmax or solimp[2] <= types.MJ_MINVAL:
+    imp = 0.5 * (dmin + dmax)
 
   # set outputs
   D_out[worldid, efcid] = 1.0 / wp.max(invweight * (1.0 - imp) / imp, types.MJ_MINVAL)
